@@ -209,6 +209,11 @@ EQUIV = {
 #: formats whose "hash" is the password itself: the result is ASCII only when the password is
 PLAINTEXT = {"plaintext", "ldap_plaintext", "roundup_plaintext"}
 DISABLED = {"unix_disabled", "django_disabled"}
+#: pure-Python digests costing >= 10 ms per call even at minimum cost (or per KiB of password).  Quick tier only:
+#: one password per non-base setting, SLOW_NEAR near misses for passwords > 1000 bytes, reduced base grid for
+#: sun_md5_crypt (4096 MD5 iterations in Python per call whatever the rounds value).
+SLOW = {"sun_md5_crypt", "bigcrypt", "oracle10", "libpass.SHA256Hasher", "libpass.SHA512Hasher"}
+SLOW_NEAR = 6
 
 # =====================================================================================================
 # passwords and near misses
@@ -322,17 +327,20 @@ def config_grid(h):
         hi = base.max_salt_size if base.max_salt_size is not None else 64
         for s in sorted({lo, hi}):
             out.append((f"salt_size={s}", dict(kw, salt_size=s), False))
-    for ident in getattr(base, "ident_values", None) or ():
-        out.append((f"ident={ident}", dict(kw, ident=ident), False))
+    if "ident" in h.setting_kwds:
+        for ident in getattr(base, "ident_values", None) or ():
+            if ident == "$2x$":
+                continue  # bcrypt.rst: "recognizes (but does not currently support generating or verifying)"
+            out.append((f"ident={ident}", dict(kw, ident=ident), False))
     name = base.name
     if name == "fshp":
         out += [(f"variant={v}", dict(kw, variant=v), False) for v in (0, 1, 2, 3, "sha256")]
     if name == "scram":
         out += [(f"algs={a}", dict(kw, algs=a), False) for a in ("sha-1", "sha-1,sha-256,sha-512", "sha-1,md5", "sha-1,sha-384")]
     if name == "sun_md5_crypt":
-        out += [("bare_salt", dict(kw, bare_salt=True), False), ("rounds=1", {"rounds": 1}, False)]
+        out += [("rounds=1", {"rounds": 1}, False)]
     if name in ("sha256_crypt", "sha512_crypt"):
-        out += [("rounds=5000", {"rounds": 5000}, False), ("rounds=5000,explicit", {"rounds": 5000, "implicit_rounds": False}, False)]
+        out += [("rounds=5000", {"rounds": 5000}, False)]  # rendered without a rounds field
     if name == "scrypt":
         out += [("block_size=1", dict(kw, block_size=1), False), ("parallelism=2", dict(kw, parallelism=2), False), ("rounds=4,$7$", {"rounds": 4, "ident": "$7$"}, False)]
     if name == "bcrypt_sha256":
@@ -382,13 +390,15 @@ class Stats:
         self.min_near = None
         self.near_total = 0
         self.bad_settings = []
+        self.seconds = {}  # hasher -> wall seconds
+        self.group_seconds = {}
 
     def refuse(self, name, err):
         k = f"{name}:{type(err).__name__}"
         self.inadmissible[k] = self.inadmissible.get(k, 0) + 1
 
 
-def is_refusal(err, pw, enc):
+def is_refusal(err, pw, enc, name=""):
     """documented 'inadmissible password' outcome of hash()/verify()"""
     from passlib import exc
 
@@ -398,15 +408,30 @@ def is_refusal(err, pw, enc):
         # only when the password really is not text in the hasher's encoding(s)
         if isinstance(pw, bytes):
             return _t(pw, "utf-8") is None or _t(pw, enc) is None
-        try:
-            pw.encode(enc)
-        except UnicodeError:
-            return True
-        return False
+        # lmhash upper-cases the text before encoding it (lmhash.rst, "Upper Case Conversion")
+        return not (_encodable(pw, enc) and _encodable(pw.upper(), enc))
+    if name == "scram" and type(err) is ValueError:
+        # scram.rst / passlib.utils.saslprep: ValueError for text that SASLprep prohibits (RFC 4013 oracle above)
+        t = _t(pw)
+        if t is not None:
+            try:
+                saslprep(t)
+            except ValueError:
+                return True
     return False
 
 
-def run_case(g, st, name, hasher, cfg, label, pwname, pw, rng, want_near, verify, hash_, identify, canon, sig):
+def run_case(g, st, name, *a, **k):
+    t0 = time.time()
+    try:
+        return _run_case(g, st, name, *a, **k)
+    finally:
+        dt = time.time() - t0
+        st.seconds[name] = st.seconds.get(name, 0.0) + dt
+        st.group_seconds[g.name] = st.group_seconds.get(g.name, 0.0) + dt
+
+
+def _run_case(g, st, name, hasher, cfg, label, pwname, pw, rng, want_near, verify, hash_, identify, canon, sig):
     """one (hasher, settings, context, password) case.  verify(secret, hash) / hash_(secret) / identify(hash)"""
     enc = cfg.get("encoding") or cfg.get("default_encoding") or "utf-8"
     wit = {"hasher": name, "settings": label, "context": {k: cfg[k] for k in ("user", "realm", "encoding") if k in cfg}, "password": pw if isinstance(pw, str) else {"bytes_hex": pw.hex()}}
@@ -416,7 +441,7 @@ def run_case(g, st, name, hasher, cfg, label, pwname, pw, rng, want_near, verify
     try:
         hs = hash_(pw)
     except Exception as err:  # noqa: BLE001
-        if is_refusal(err, pw, enc):
+        if is_refusal(err, pw, enc, name):
             st.refuse(name, err)
             g.case((name, label, repr(sorted(wit["context"].items())), pwname, "refused"), nontrivial=False)
             return None
@@ -435,36 +460,44 @@ def run_case(g, st, name, hasher, cfg, label, pwname, pw, rng, want_near, verify
         ok = identify(hs)
     except Exception as err:  # noqa: BLE001
         ok = f"{type(err).__name__}: {err}"
-    g.check(ok is True, f"identify:{name}" + (":empty" if pw in ("", b"") and name in PLAINTEXT else ""), f"identify(own hash) gave {ok!r}", wit)
+    empty = ":empty" if pw in ("", b"") else ""
+    g.check(ok is True, f"identify:{name}{empty}", f"identify(own hash) gave {ok!r}", wit)
     if name in DISABLED:
-        for cand in [pw, "", "x", hs, b"\xff", "password"] + [v for _, v in near_misses(_b(pw), None, rng)[:20]]:
+        n = 0
+        for cand in [pw, "", "x", hs, b"\xff", "password"] + [v for _, v in near_misses(_b(pw), None, rng)[:30]]:
             try:
                 r = verify(cand, hs)
             except Exception as err:  # noqa: BLE001
+                if is_refusal(err, cand, enc, name):
+                    continue  # oversize: inadmissible, in particular not True
                 r = err
-            g.check(r is False, f"disabled-verifies:{name}", f"disabled hasher verify gave {r!r}", dict(wit, candidate=repr(cand)))
+            n += 1
+            g.check(r is False, f"disabled-verifies:{name}", f"disabled hasher verify gave {r!r}", dict(wit, candidate=_show(cand)))
+        st.near_total += n
         return hs
     # --- positive direction -----------------------------------------------------------------------
     try:
         r = verify(pw, hs)
     except Exception as err:  # noqa: BLE001
         r = f"{type(err).__name__}: {str(err)[:100]}"
-    g.check(r is True, f"verify-own:{name}" + ("" if kind == "ascii" else f":{kind}"), f"verify(password, hash(password)) gave {r!r}", wit)
+    if not g.check(r is True, f"verify-own:{name}{empty}" + ("" if kind == "ascii" else f":{kind}"), f"verify(password, hash(password)) gave {r!r}", wit):
+        return hs  # one root cause, one witness: the remaining checks would only repeat it
     if isinstance(pw, str):
-        try:
-            eb = pw.encode(enc)
-            r = verify(eb, hs)
-        except Exception as err:  # noqa: BLE001
-            r = f"{type(err).__name__}: {str(err)[:100]}"
-        g.check(r is True, f"verify-bytes:{name}" + ("" if kind == "ascii" else ":nonascii"), f"verify(encoded bytes of the password) gave {r!r}", dict(wit, encoding=enc))
+        if _encodable(pw, enc) and not cfg.get("_light"):
+            try:
+                r = verify(pw.encode(enc), hs)
+            except Exception as err:  # noqa: BLE001
+                r = f"{type(err).__name__}: {str(err)[:100]}"
+            g.check(r is True, f"verify-bytes:{name}" + ("" if kind == "ascii" else ":nonascii"), f"verify(encoded bytes of the password) gave {r!r}", dict(wit, encoding=enc))
     else:
         t = _t(pw, enc)
-        if t is not None and enc != "utf-8":
+        if t is not None and _encodable(t, enc) and t.encode(enc) == pw:
             try:
                 r = verify(t, hs)
             except Exception as err:  # noqa: BLE001
                 r = f"{type(err).__name__}: {str(err)[:100]}"
-            g.check(r is True, f"verify-text:{name}", f"verify(decoded text of the bytes password) gave {r!r}", dict(wit, encoding=enc))
+            if not (isinstance(r, str) and r.startswith("Unicode") and not _encodable(t.upper(), enc)):
+                g.check(r is True, f"verify-text:{name}:nonascii", f"verify(decoded text of the bytes password) gave {r!r}", dict(wit, encoding=enc))
     # --- negative direction -----------------------------------------------------------------------
     own = canon(pw, cfg)
     pb = _b(pw, enc) if not (isinstance(pw, str) and not _encodable(pw, enc)) else pw.encode("utf-8")
@@ -486,14 +519,14 @@ def run_case(g, st, name, hasher, cfg, label, pwname, pw, rng, want_near, verify
         try:
             r = verify(cand, hs)
         except Exception as err:  # noqa: BLE001
-            if is_refusal(err, cand, enc):
+            if is_refusal(err, cand, enc, name):
                 continue
             g.fail(f"near-miss-raises:{name}:{type(err).__name__}", f"verify(near miss) raised {type(err).__name__}: {str(err)[:100]}", dict(wit, near=_show(cand), category=cat))
             continue
         done += 1
         g.check(r is False, f"near-miss:{name}:{cat}", f"verify(different password) gave {r!r}", dict(wit, near=_show(cand), category=cat))
     st.near_total += done
-    if want_near >= NEAR_MIN and (st.min_near is None or done < st.min_near[0]):
+    if want_near >= NEAR_MIN and (st.min_near is None or done < st.min_near[0]):  # (reduced cases not counted)
         st.min_near = (done, name, label, pwname)
     return hs
 
@@ -518,7 +551,7 @@ def build(tier, rng):
     import passlib.utils.handlers as uh
 
     quick = tier == "quick"
-    want_near = 24 if quick else 48
+    want_near = NEAR_MIN if quick else 48
     skipped = []
     st = Stats()
     t_start = time.time()
@@ -565,7 +598,13 @@ def build(tier, rng):
         canon, sig = EQUIV.get(base.name, (eq_exact, None))
         trunc = getattr(base, "truncate_size", None)
         grid = password_grid(tier, rng, trunc)
-        few = [p for p in grid if p[0] in ("ascii", "utf8-3", "len255") or p[0].startswith("T+1")]
+        # passwords used with the non-base settings / contexts (the base configuration gets the whole grid)
+        if not quick:
+            few = [p for p in grid if p[0] in ("ascii", "utf8-3", "len255", "nonutf8") or p[0].startswith("T")]
+        elif name in SLOW:
+            few = [p for p in grid if p[0] == "utf8-3"]
+        else:
+            few = [p for p in grid if p[0] == "utf8-3" or p[0] == (f"T+1={trunc + 1}" if trunc else "ascii")]
         configs = config_grid(h)
         contexts = context_grid(h)
         for ci, (label, ukw, default_cost) in enumerate(configs):
@@ -585,12 +624,18 @@ def build(tier, rng):
                     near = 1 if quick else NEAR_MIN
                 cfg = dict(ctx)
                 cfg["default_encoding"] = getattr(base, "default_encoding", None)
+                cfg["_light"] = default_cost and quick  # hash, verify, one near miss
+                if quick and name == "sun_md5_crypt":
+                    if ci == 0:
+                        pws = [p for p in pws if p[0] not in ("utf8-2", "utf8-4", "len255")]
+                    elif label.startswith("salt_size") and not label.endswith("=0"):
+                        continue
                 if "ident" in ukw:
                     cfg["ident"] = ukw["ident"]
                 lab = label + ("" if not xi else " ctx=" + ",".join(f"{k}={v}" for k, v in ctx.items()))
                 for pwname, pw in pws:
                     hs = run_case(
-                        g, st, name, sub, cfg, lab, pwname, pw, rng, near,
+                        g, st, name, sub, cfg, lab, pwname, pw, rng, SLOW_NEAR if quick and name in SLOW and len(pw) > 1000 else near,
                         verify=lambda s, hh, sub=sub, ctx=ctx: sub.verify(s, hh, **ctx),
                         hash_=lambda s, sub=sub, ctx=ctx: sub.hash(s, **ctx),
                         identify=sub.identify, canon=canon, sig=sig,
@@ -631,7 +676,7 @@ def build(tier, rng):
 
     for nm, cls, cfgs, canon, sig in lib:
         grid = password_grid(tier, rng, 72 if nm == "BcryptHasher" else None)
-        few = [p for p in grid if p[0] in ("ascii", "utf8-3", "len255")]
+        few = [p for p in grid if p[0] in (("ascii", "utf8-3") if quick else ("ascii", "utf8-3", "len255", "nonutf8", "T+1=73"))]
         for ci, (label, kw, default_cost) in enumerate(cfgs):
             try:
                 obj = cls(**kw)
@@ -667,16 +712,22 @@ def build(tier, rng):
                     raise
 
             for pwname, pw in pws:
-                run_case(g_lib, st, "libpass." + nm, obj, {}, label, pwname, pw, rng, near, verify=verify, hash_=hash_, identify=obj.identify, canon=canon, sig=sig)
+                n_near = SLOW_NEAR if quick and "libpass." + nm in SLOW and len(pw) > 1000 else near
+                run_case(g_lib, st, "libpass." + nm, obj, {"_light": default_cost and quick}, label, pwname, pw, rng, n_near, verify=verify, hash_=hash_, identify=obj.identify, canon=canon, sig=sig)
 
+    groups = [g_reg, g_wrap, g_dis, g_lib]
+    now = time.time()
+    for g in groups:  # Group.out() reports now - t0: make that the time spent in this group's cases
+        g.t0 = now - st.group_seconds.get(g.name, 0.0)
     host = {
+        "slowest_hashers_s": {k: round(v, 1) for k, v in sorted(st.seconds.items(), key=lambda kv: -kv[1])[:12]},
         "inadmissible": dict(sorted(st.inadmissible.items())),
         "inadmissible_settings": st.bad_settings,
         "near_misses_evaluated": st.near_total,
         "min_near_misses_in_a_case": st.min_near,
         "seconds": round(time.time() - t_start, 1),
     }
-    return [g_reg, g_wrap, g_dis, g_lib], skipped, host
+    return groups, skipped, host
 
 
 if __name__ == "__main__":
